@@ -290,7 +290,7 @@ class StateScenario(Scenario):
                 if rng.random() < h["p_fault"] and op["op"] in ("set", "assign_sub", "load_tree", "loads", "lop", "dop", "ctor", "validate", "insert_item"):
                     op["faults"] = [{"seam": "callback", "nth": rng.randint(1, 3), "kind": "callback-err",
                                      "exc": rng.choice(sorted(schema.EXC))}]
-                if op["op"] == "set" and rng.random() < 0.25:
+                if op["op"] == "set" and h["p_fault"] > 0 and rng.random() < 0.25:
                     t = next((t for t in tgts if t.path == op.get("path")), None)
                     if t is not None and t.node["kind"] == "hostname" and t.node.get("o", {}).get("resolve"):
                         # the resolver fails for this one call (transient DNS failure)
